@@ -162,6 +162,22 @@ theorem wait_timeout_within_budget (δ timeout : Nat) (flag0 : Bool) (wakes : Li
           · simp only [hl, if_false]; exact hle
         · simp only [Bool.not_true, Bool.false_eq_true, if_false]; exact hle
 
+/-- **The blocking entry points are total in every calling context** (decision table, after fix D3): whichever
+    module's `blocking_flush` / `blocking_send` is called from a plain thread, a worker of a tokio multi-thread
+    runtime or inside a tokio current-thread runtime, the way it waits is legal there according to tokio's
+    documented rules (`pathPanics`) — it never takes `Handle::block_on`, and takes `block_in_place` only on the
+    multi-thread flavour. Before the fix `tokio::blocking_*` took `Handle::block_on` in both runtime contexts and
+    panicked ("Cannot start a runtime from within a runtime"); stream `batcher_blocking` reproduces that on the
+    unfixed tree. That the condvar wait itself then returns within the timeout is `wait_timeout_within_budget`
+    (under the runtime assumption about `Condvar::wait_timeout`) — sampled, *partial*. -/
+theorem blocking_entry_total (api : Api) (ctx : Ctx) :
+    pathPanics (blockingPath api ctx) ctx = false ∧ blockingPath api ctx ≠ .handleBlockOn := by
+  cases api <;> cases ctx <;> decide
+
+/-- the pre-fix table would have panicked: `Handle::block_on` inside either runtime flavour -/
+example : pathPanics .handleBlockOn .tokioMultiThread = true ∧ pathPanics .handleBlockOn .tokioCurrentThread = true := by
+  decide
+
 /-! ### Non-vacuity -/
 
 /-- A batch retried until the budget (2) is exhausted: 3 calls, two non-decreasing waits, then given up;
